@@ -21,5 +21,7 @@ def run(ctx):
         ctx.pipe([h, "residual", "12", "65", "128"], "residual", label="residual-large")
     # code-level model of both LevelCache constructors (GMGModel/Cache.lean): every cache array of every level of a chain, all four flag pairs
     ctx.pipe([h, "cache", "20" if ctx.tier == "quick" else "200", "17", "32"], "cache", label="level-caches")
+    # the parallel regions of these operators must be race-free, otherwise the result depends on the schedule
+    ctx.schedule_conflicts(("ResidualGive", "ResidualTake"))
     ctx.assumptions += ["theorem give = take needs antipodally symmetric angular spacing across the origin (C03.hk_needed shows it is necessary); "
                         "grids accepted by the constructor have it up to rounding", "rounding is covered by the allowance, not proved"]
